@@ -17,11 +17,11 @@ def jobs(tier):
     out = []
     olo, ohi = (0, 2) if q else (-2, 5)
     # which leaves keep their full range in the quick tier (the ones that interact with the overridden constants)
-    WIDE = {"t_index": ["n", "i"], "t_slice_let": ["a", "b"], "t_regsize_let": ["n", "i"], "t_loop_sub": ["k", "c"], "t_shadow": ["v", "i"],
-            "t_alias_macro": ["a", "i"], "t_macro_sub": ["c", "k"], "t_let_arg": ["v"], "t_float": ["i"]}
+    WIDE = {"t_index": ["i"], "t_slice_let": ["b"], "t_regsize_let": ["i"], "t_loop_sub": ["c"], "t_shadow": ["i"],
+            "t_alias_macro": ["i"], "t_macro_sub": [], "t_let_arg": ["v"], "t_float": []}
     for t in WITH_LETS:
         shrink = window(t, tier, 1, WIDE.get(t, ())) if q else None
-        for mask in ((0, 1, 3) if q else (0, 1, 2, 3, 5, 7)):
+        for mask in ((1, 3) if q else (0, 1, 2, 3, 5, 7)):
             ep = [("o0", "int")] if mask else []
             pre = [f"{olo} <= o0 <= {ohi}"] if mask else []
             fx = {"pulses": True, "mask": mask, "fo": -1, "o1": 1}
@@ -35,7 +35,8 @@ def jobs(tier):
                              note=f"{t}: fill_in_let with overrides on constant subset mask={mask}; oracle: no Constant left in any position, "
                                   "impl_meaning(out, {}) == ref_meaning(program, overrides), declarations/macros/native gates/usepulses preserved"))
         # float override of the first constant
-        for fo in ((0, 2) if q else (0, 1, 2, 3, 4, 5)):
+        pure_numeric = t in ("t_let_arg", "t_float")      # the first constant is never an index/bound/count
+        for fo in (((0, 2) if pure_numeric else (2,)) if q else ((0, 1, 2, 3, 4, 5) if pure_numeric else (2, 3, 8, 12))):
             out.extend(tjobs(f"{H}:c05_letfill", t, tier, fixed={"pulses": False, "mask": 1, "fo": fo, "o0": 0, "o1": 0}, functions=FUNCS, timeout=400 if q else 2400,
                              shrink=window(t, tier, 1) if q else None, note=f"{t}: first constant overridden by float grid value #{fo}"))
     return out
